@@ -165,6 +165,20 @@ Theorem C13_legacy_reconnects : forall s cs d rs body rest nm rand,
   ltrace s' = rev (map (LSentSub k) (lsubs s)) ++ [LSentAuth k rand; LInfo k rand; LConnected k; LAttempt] ++ ltrace s.
 Proof. exact reconnects_when_reachable. Qed.
 
+(* ---- _Protocol.connection_lost as TRANSLATED from hpfeeds/asyncio/client.py on every run (harness/pytrans6.py -> AioGen.v):
+   the loss of a connection is the model's do_lost (transport bookkeeping, then the translated callback).  No axioms. *)
+From HP Require Import AioGen AioGenEq.
+Theorem C13_src_asyncio_connection_lost_is_model : forall k s,
+  do_lost k s =
+  let c := getc s k in
+  if (k <? length (conns s))%nat && negb (clost c) then
+    match Protocol_connection_lost k (modk k (fun c => mkac (cbuf c) (cout c) true true (caborted c) (cnonce c)) s) with
+    | (s', true) => bump s'
+    | (s', false) => s'
+    end
+  else s.
+Proof. exact connection_lost_src_eq. Qed.
+
 Print Assumptions C13_asyncio_finished_forever.
 Print Assumptions C13_asyncio_close_not_connected.
 Print Assumptions C13_asyncio_P1.
@@ -183,3 +197,4 @@ Print Assumptions C13_legacy_loss_in_receive_loop.
 Print Assumptions C13_legacy_loss_during_handshake.
 Print Assumptions C13_legacy_refused_attempt.
 Print Assumptions C13_legacy_reconnects.
+Print Assumptions C13_src_asyncio_connection_lost_is_model.
